@@ -806,6 +806,7 @@ func mechanisms(c *hx.Ctx, k interface{}, pg Page) {
 		opParagraphs(c, frs, w, h)
 		opBlocks(c, k, frs, w, h)
 		opElementTree(c, frs, w, h)
+		opElements(c, frs, w, h)
 		opAssemble(c, frs, w)
 		opPreserveX(c, k, frs, w)
 		opGaps(c, k, frs, w, h)
